@@ -68,6 +68,7 @@ WRAPPER = r"""#!/bin/bash
 #   W_CC_PRE/W_CC_POST   seconds to sleep before / after the real compiler (kernel compiles only)
 #   W_CC_GATE    directory: kernel compiles announce pre.<pid>, wait for go_pre, compile, optionally truncate the
 #                output to W_CC_TRUNC per mille of its size, announce post.<pid> and wait for go_post
+#                (the waits give up after 60000 polls so that an abandoned wrapper never lives forever)
 real=g++
 kind=K
 out=""
@@ -81,7 +82,7 @@ echo "S $$ $kind $out" >> "$W_CCLOG"
 if [ "$kind" = K ]; then
   if [ -n "$W_CC_GATE" ]; then
     : > "$W_CC_GATE/pre.$$"
-    while [ ! -e "$W_CC_GATE/go_pre" ]; do sleep 0.01; done
+    n=0; while [ ! -e "$W_CC_GATE/go_pre" ] && [ $n -lt 60000 ]; do sleep 0.01; n=$((n+1)); done
   fi
   if [ -n "$W_CC_PRE" ]; then sleep "$W_CC_PRE"; fi
 fi
@@ -95,7 +96,7 @@ if [ "$kind" = K ]; then
   if [ -n "$W_CC_POST" ]; then sleep "$W_CC_POST"; fi
   if [ -n "$W_CC_GATE" ]; then
     : > "$W_CC_GATE/post.$$"
-    while [ ! -e "$W_CC_GATE/go_post" ]; do sleep 0.01; done
+    n=0; while [ ! -e "$W_CC_GATE/go_post" ] && [ $n -lt 60000 ]; do sleep 0.01; n=$((n+1)); done
   fi
 fi
 echo "E $$ $kind $rc" >> "$W_CCLOG"
